@@ -2,9 +2,9 @@
 from __future__ import annotations
 from engine.registry import Registry
 from engine import sortmodel, polymodel
-from contracts import option, sorting, align, compare, order_lemmas, leading, dispatch, construct, dispatchfn, baseclass, derivative, division, statics, call, codec, shapefn, display, polynomial
+from contracts import option, sorting, align, compare, order_lemmas, leading, dispatch, construct, dispatchfn, baseclass, derivative, division, statics, call, codec, shapefn, display, polynomial, numeric
 
-_CONTRACT_MODULES = [option, sorting, align, compare, leading, dispatch, construct, dispatchfn, baseclass, derivative, division, call, codec, shapefn, polynomial]
+_CONTRACT_MODULES = [option, sorting, align, compare, leading, dispatch, construct, dispatchfn, baseclass, derivative, division, call, codec, shapefn, polynomial, numeric]
 
 ALL_CONTRACTS = {}
 for _m in _CONTRACT_MODULES:
@@ -22,6 +22,7 @@ def build_registry():
     codecmodel.install(reg)
     codec.install_axioms(reg)
     shapefn.install_axioms(reg)
+    numeric.install_axioms(reg)
     for c in ALL_CONTRACTS.values():
         def model(ex, args, kw, node, _c=c):
             ex.reg.used.add("contract:" + _c.name)
@@ -219,10 +220,21 @@ PROPS = {
                 "matmul, det: bounded run-time checks (conc/checks_c10.py).",
                 trusted_base=COMMON_TRUSTED),
     "C11": dict(level="other", contracts=["numpoly.isconstant", "numpoly.tonumpy", "numpoly.absolute", "numpoly.ceil", "numpoly.floor",
-                                          "numpoly.rint", "numpoly.around"],
-                explanation="isconstant/tonumpy (on which the numeric division family and every 'constant' clause rest) are proved; "
-                "the catalogue of mirrored functions on constants is a bounded run-time check against numpy on plain arrays "
-                "(conc/checks_c11.py).", trusted_base=COMMON_TRUSTED),
+                                          "numpoly.rint", "numpoly.around", "numpoly.true_divide", "numpoly.floor_divide",
+                                          "numpoly.remainder", "numpoly.divmod", "numpoly.any", "numpoly.all", "numpoly.count_nonzero",
+                                          "numpoly.nonzero", "numpoly.logical_and", "numpoly.logical_or"],
+                explanation="isconstant/tonumpy (on which every 'constant' clause rests) are proved. The numeric division family is "
+                "proved from its source: true_divide/floor_divide raise FeatureNotSupported exactly for a non-constant divisor and "
+                "otherwise fill EVERY coefficient column with numpy's quotient by the divisor's value (loop invariant, definedness); "
+                "remainder/divmod raise exactly when an operand is not constant and otherwise return polynomial(numpy.f(x1.tonumpy(), "
+                "x2.tonumpy(), where=...)). any/all/count_nonzero/nonzero/logical_and/logical_or are proved to apply the numpy "
+                "namesake to the non-zero mask of each operand (mask[i] <=> element i is not the zero polynomial; for constants: "
+                "numpy's truth value) with every parameter forwarded. absolute/ceil/floor/rint/around go through simple_dispatch. "
+                "The rest of the catalogue of mirrored functions on constant arrays (argmax/amax, isclose/allclose, reductions, "
+                "shape functions ...) is a bounded run-time check against numpy on the plain arrays (conc/checks_c11.py).",
+                trusted_base=COMMON_TRUSTED + ["numpy axioms: any over the stacked coefficients, ufuncs with out=, common_type"],
+                assumptions=["A1; floor division uninterpreted", "out=None, where=True for true_divide/floor_divide"],
+                not_decided=["numeric values of the mirrored catalogue on constants (bounded)"]),
     "C12": dict(level="other", contracts=["numpoly.polynomial_from_attributes", "numpoly.clean_attributes", "numpoly.ndpoly.astype",
                                           "numpoly.polynomial", "numpoly.aspolynomial"],
                 explanation="Definedness ghost state: polynomial_from_attributes (through which every constructor and operation "
